@@ -14,6 +14,30 @@ open Dx Dx.Cols
 
 variable {γ ι : Type}
 
+/-! ### why `MergeOp` is not instantiated -/
+
+theorem labelL_twin_a : labelL ⟨[], [], "_x", "_y"⟩ ["a"] "a" = "a_x" := by decide
+theorem labelL_twin_ax : labelL ⟨[], [], "_x", "_y"⟩ ["a"] "a_x" = "a_x" := by decide
+
+/-- `MergeOp.op_left` is asked for ALL frames, also when two left columns get the same result label (`a` suffixed to
+    `a_x` next to a column `a_x`): a `MergeOp` (here: no keys, suffix `_x`) cannot let a result column depend on the data
+    of the left column it carries.  The fragment's join `mergeFrame` is therefore treated directly, under the
+    duplicate-free result labels that are part of `mergeOK`. -/
+theorem mergeOp_degenerate (M : MergeOp γ) (hm : M.m = ⟨[], [], "_x", "_y"⟩)
+    (l r : Name → Option γ) (x y : Option γ) : M.TL l r x = M.TL l r y := by
+  let A : Frame γ := ⟨["a", "a_x"], fun c => if c = "a" then x else y⟩
+  let B : Frame γ := ⟨["a"], r⟩
+  have h1 := M.op_left A B "a" rfl
+  have h2 := M.op_left A B "a_x" rfl
+  have e1 : labelL M.m B.cols "a" = "a_x" := by rw [hm]; exact labelL_twin_a
+  have e2 : labelL M.m B.cols "a_x" = "a_x" := by rw [hm]; exact labelL_twin_ax
+  rw [e1] at h1
+  rw [e2] at h2
+  have hk := (M.T_keys l A.val r B.val (by rw [hm]; intro k hk; cases hk) (by rw [hm]; intro k hk; cases hk)).1
+  rw [hk]
+  have : M.TL A.val B.val (A.val "a") = M.TL A.val B.val (A.val "a_x") := by rw [← h1, ← h2]
+  simpa [A] using this
+
 /-! ### labels -/
 
 theorem all_iff {l : List Name} {q : Name → Bool} : l.all q = true ↔ ∀ c, c ∈ l → q c = true := List.all_eq_true
